@@ -6,7 +6,9 @@ import refcodec as rc
 import simnet
 from refserver import RefServer
 
-EXTRA_PROPS = ['C09Wire', 'C09Status']
+EXTRA_PROPS = ['C09Wire', 'C09Status', 'C09Clock']
+
+EXTRACT = ['gen.c09clock']
 
 RULE = ("allowed-version sets (singletons, pairs, chronological prefixes, all supported; as numbers or "
         "names) x default versions x server behaviours (every supported protocol in turn, unsupported/"
@@ -404,6 +406,178 @@ def run(ctx):
         if mo != g:
             ctx.disagree('plain status query bytes', line, mo, g)
     statusx_tie(ctx)
+    recvstatus_tie(ctx)
+    clock_tie(ctx)
+
+
+def recvstatus_tie(ctx):
+    """Tie of `clientRecvStatus` (Model/HandshakeWire.lean, driver `hswire.recvstatus`): server -> client streams of a status
+    connection (response, pong, other ids; well-formed, malformed, cut anywhere, in arbitrary segments) through the real
+    StatusReactor.read_packet until it raises: the packets it returned, in order, and the exception that ended the loop."""
+    import struct
+    import minecraft.networking.connection as C
+    from corr.c01 import SegStream
+    rng = ctx.rng
+
+    def ename(e):
+        if isinstance(e, struct.error):
+            return 'struct'
+        if isinstance(e, EOFError):
+            return 'eof'
+        if isinstance(e, UnicodeDecodeError):
+            return 'decode'
+        if isinstance(e, ValueError) and 'too long' in str(e):
+            return 'toolong'
+        if isinstance(e, ValueError):
+            return 'value'
+        if isinstance(e, TypeError):
+            return 'type'
+        return 'other(%s)' % type(e).__name__
+    saved_select = C.select
+    C.select = types.SimpleNamespace(select=lambda r, w, x, t=None: (list(r), [], []))
+    lines, impl = [], []
+    try:
+        for case in range(ctx.scale(150, 2000)):
+            frames = []
+            for _ in range(rng.choice([0, 1, 2, 2, 3])):
+                k = rng.random()
+                if k < 0.4:
+                    j = rng.choice(['{}', '{"description":"x"}', '{"d":"h\u00e9 \u20ac"}', '', 'x' * 200])
+                    body = rc.varint(0) + rc.string(j)
+                elif k < 0.7:
+                    body = rc.varint(1) + struct.pack('>q', rng.choice([0, 1, -1, 1000, 2 ** 63 - 1, -2 ** 63, rng.randrange(-2 ** 63, 2 ** 63)]))
+                elif k < 0.8:
+                    body = rc.varint(rng.choice([2, 5, 0x7F, 300])) + bytes(rng.randrange(256) for _ in range(rng.randrange(0, 6)))
+                elif k < 0.87:
+                    body = rc.varint(1) + bytes(rng.randrange(256) for _ in range(rng.randrange(0, 8)))      # short pong
+                elif k < 0.94:
+                    body = rc.varint(0) + rc.varint(rng.randrange(1, 40)) + b'ab'                          # string longer than the frame
+                else:
+                    body = rc.varint(0) + rc.varint(2) + rng.choice([b'\xff\xfe', b'\xc3\x28', b'\xed\xa0'])  # not UTF-8
+                frames.append(rc.varint(len(body)) + body)
+            data = b''.join(frames)
+            if rng.random() < 0.5 and data:
+                data = data[:rng.randrange(0, len(data) + 1)]
+            segs, i = [], 0
+            while i < len(data):
+                n = rng.choice([1, 1, 2, 3, 5, 8, 40, 300])
+                segs.append(data[i:i + n])
+                i += n
+            conn = types.SimpleNamespace(context=C.ConnectionContext(protocol_version=757),
+                                         options=types.SimpleNamespace(compression_enabled=False, compression_threshold=-1))
+            reactor = C.StatusReactor(conn)
+            stream = SegStream(segs)
+            got, end = [], None
+            for _ in range(len(frames) + 3):
+                try:
+                    p = reactor.read_packet(stream, timeout=0)
+                except Exception as e:
+                    end = ename(e)
+                    break
+                if p is None:
+                    end = 'returned-none'
+                    break
+                name = getattr(p, 'packet_name', None)
+                if name == 'response':
+                    got.append('response:' + (p.json_response.encode('utf-8').hex() or '-'))
+                elif name == 'ping':
+                    got.append('pong:%d' % p.time)
+                else:
+                    got.append('other')
+            lines.append('hswire.recvstatus ' + ' '.join(sg.hex() for sg in segs))
+            impl.append('ok pkts=%s end=%s' % (','.join(got) or '-', end))
+            ctx.case(('recvstatus', lines[-1]), sample={'op': 'hswire.recvstatus', 'segments': len(segs), 'impl': impl[-1][:100]}
+                     if rng.random() < 0.03 else None)
+            ctx.count('recvstatus.end.%s' % end)
+    finally:
+        C.select = saved_select
+    for line, mo, g in zip(lines, ctx.driver.ask([l.rstrip() for l in lines]), impl):
+        if mo != g:
+            ctx.disagree('status stream through StatusReactor.read_packet (hswire.recvstatus)', line[:300], mo[:300], g[:300])
+
+
+def clock_tie(ctx):
+    """Ties of Model/C09Clock.lean.  (a) `c09clock.latency trunc trunc t0 t1`: the real plain status query with the timer
+    stubbed to two dyadic readings (n/8192 s: the binary64 product 1000*t is exact there) -- the latency handed to the ping
+    handler is the model's, and it is non-negative.  (b) `c09clock.ctor sup …`: the real constructor with `initial_version`
+    = supported names, known-but-unsupported names (incl. those sharing a supported protocol number), unknown names, numbers
+    and other objects, against the model given BOTH live name tables."""
+    import minecraft
+    import minecraft.networking.connection as C
+    rng = ctx.rng
+    saved_timeit = C.timeit
+    lines, impl = [], []
+    try:
+        for case in range(ctx.scale(60, 600)):
+            n0 = rng.randrange(0, 2 ** 36)
+            n1 = n0 + rng.choice([0, 1, 2, 3, 4, 5, 8, 9, 16, 17, rng.randrange(0, 200), rng.randrange(0, 2 ** 20)])
+            it = iter([n0 / 8192.0, n1 / 8192.0])
+            C.timeit = types.SimpleNamespace(default_timer=lambda it=it: next(it))
+            got = []
+            cfg = {'version': 47, 'status': ('json', '{"description":"x"}')}
+            with simnet.Net(lambda s_: RefServer(s_, cfg)) as net:
+                conn = C.Connection('h', 25565, handle_exception=lambda e, i: got.append('exc:%s' % type(e).__name__))
+                conn.status(handle_status=False, handle_ping=lambda ms: got.append(ms))
+                net.run_threads()
+            lines.append('c09clock.latency trunc trunc %d/8192 %d/8192' % (n0, n1))
+            impl.append('ok %s' % (got[0] if len(got) == 1 else got))
+            ctx.case(('c09clock.latency', n0, n1), sample={'op': 'c09clock.latency', 'readings': [n0 / 8192.0, n1 / 8192.0], 'impl': impl[-1]}
+                     if rng.random() < 0.05 else None)
+            if len(got) != 1 or not isinstance(got[0], int) or got[0] < 0:
+                ctx.violation('plain status query with clock readings %r s then %r s (monotonic): latency report %r'
+                              % (n0 / 8192.0, n1 / 8192.0, got), {'readings': [n0, n1], 'denominator': 8192},
+                              key={'kind': 'clock-latency', 'n0': n0, 'n1': n1})
+    finally:
+        C.timeit = saved_timeit
+    for line, mo, g in zip(lines, ctx.driver.ask(lines), impl):
+        if mo != g:
+            ctx.disagree('latency over dyadic clock readings (c09clock.latency)', line, mo, g)
+    # (b)
+    SUPN, KN = dict(minecraft.SUPPORTED_MINECRAFT_VERSIONS), dict(minecraft.KNOWN_MINECRAFT_VERSIONS)
+    SP = list(minecraft.SUPPORTED_PROTOCOL_VERSIONS)
+    hn = lambda t: t.encode('utf-8').hex() or '-'
+    env = 'sv=%s kv=%s sp=%s' % (','.join('%s:%d' % (hn(k), v) for k, v in SUPN.items()) or '-',
+                                 ','.join('%s:%d' % (hn(k), v) for k, v in KN.items()) or '-', ','.join(map(str, SP)) or '-')
+    known_only = [k for k in KN if k not in SUPN]
+    shared = [k for k in known_only if KN[k] in SP]
+    picks = []
+    for _ in range(ctx.scale(60, 500)):
+        r = rng.random()
+        if r < 0.3:
+            picks.append(rng.choice(sorted(SUPN)))
+        elif r < 0.55 and shared:
+            picks.append(rng.choice(shared))
+        elif r < 0.7 and known_only:
+            picks.append(rng.choice(known_only))
+        elif r < 0.8:
+            picks.append(rng.choice(['', 'nonsense', '1.99', '1.8 ', ' 1.8', '1.8\u00e9']))
+        elif r < 0.95:
+            picks.append(rng.choice(SP + list(minecraft.KNOWN_PROTOCOL_VERSIONS) + [0, -1, 99999]))
+        else:
+            picks.append(rng.choice([2.5, None, (47,), b'1.8']))
+    lines, impl = [], []
+    for x in picks:
+        if x is None:
+            continue                       # None means "no initial version": not a lookup
+        try:
+            c = C.Connection('h', 25565, username='u', initial_version=x)
+            g = 'ok %d' % c.default_proto_version
+        except ValueError:
+            g = 'err:value'
+        except TypeError:
+            g = 'err:type'
+        tok = 'o' if isinstance(x, bool) or not isinstance(x, (int, str)) else ('i%d' % x if isinstance(x, int) else 's' + hn(x))
+        lines.append('c09clock.ctor sup %s %s' % (env, tok))
+        impl.append(g)
+        ctx.case(('c09clock.ctor', repr(x)), sample={'op': 'c09clock.ctor', 'initial_version': repr(x), 'impl': g} if rng.random() < 0.05 else None)
+        ctx.count('c09clock.ctor.' + g.split()[0])
+        if isinstance(x, str) and x not in SUPN and g.startswith('ok'):
+            ctx.violation('Connection(initial_version=%r) accepted: %r is not a supported version name%s'
+                          % (x, x, ' (it is known, unsupported, and shares protocol %d with a supported release)' % KN[x] if x in shared else ''),
+                          {'name': x}, key={'kind': 'clock-ctor', 'name': x})
+    for line, mo, g in zip(lines, ctx.driver.ask(lines), impl):
+        if mo != g:
+            ctx.disagree('constructor name lookup (c09clock.ctor)', line[-80:], mo, g)
 
 
 def statusx_tie(ctx):
